@@ -84,7 +84,12 @@ def check_frame(ctx: Check, tree: Tree) -> None:
     problems = []
     am = next(c for c in ast.walk(comp.value) if _call_named(c, "ArrayMultiplication"))
     am = inl.expr(am, stop={n.id for n in ast.walk(comp.generators[0].target) if isinstance(n, ast.Name)})
-    args = am.args
+    args = []
+    for a in am.args:  # ArrayMultiplication(*frame, p) with frame a tuple of matrices
+        if isinstance(a, ast.Starred) and isinstance(a.value, (ast.Tuple, ast.List)):
+            args.extend(a.value.elts)
+        else:
+            args.append(a)
     names = [a.func.id if isinstance(a, ast.Call) and isinstance(a.func, ast.Name) else None for a in args]
     if names[:3] != ["BoostZMatrix", "RotationYMatrix", "RotationZMatrix"] or len(args) != 4:
         problems.append(f"chain is {names}, not [BoostZMatrix, RotationYMatrix, RotationZMatrix, p]")
@@ -123,10 +128,12 @@ def check_frame(ctx: Check, tree: Tree) -> None:
             mm = _re.search(r"determine_attached_final_state\(topology, (\w+)\)", P)
             if not (P.startswith("ArraySum(") and mm and mm.group(1) in loop_vars):
                 problems.append(f"the frame momentum `{P[:60]}` is not the sum over the final states attached to the decaying child")
-        # filter: only the momenta of this subsystem are boosted
-        ifs = comp.generators[0].ifs
-        if len(ifs) != 1 or not (isinstance(ifs[0], ast.Compare) and isinstance(ifs[0].ops[0], ast.In)):
-            problems.append("the boosted pool is not restricted to the sub-system's own final states")
+        # (a filter `if k in sub_momenta_ids` only drops entries the recursion never reads:
+        #  not a necessary condition, not checked.)  A filter must never drop own members:
+        for cond in comp.generators[0].ifs:
+            if not (isinstance(cond, ast.Compare) and len(cond.ops) == 1 and isinstance(cond.ops[0], ast.In)
+                    and "determine_attached_final_state" in unparse(inl.expr(cond.comparators[0]))):
+                problems.append(f"the boosted pool is filtered by `{unparse(cond)[:60]}`, which is not membership in the sub-system's final states")
     ctx.verdict(not problems, "R-FRAME", key, tree.loc(comp),
                 "helicity frame = BoostZ(|P|/E) · RotationY(-Theta(P)) · RotationZ(-Phi(P)) applied to the sub-system's momenta, P = summed momentum of the decaying child",
                 problems or None)
@@ -239,6 +246,7 @@ def run(ctx: Check, tree: Tree) -> None:
     ctx.decided += [
         "R-PROV: in compute_helicity_angles the state id that names an angle pair reaches the momentum that fills it (all reaching definitions)",
         "R-FRAME: helicity frames are BoostZ(|P|/E)·RotationY(-Theta(P))·RotationZ(-Phi(P)) of the child's summed momentum; recursion uses the boosted pool",
+        "R-POOL: the momenta of each node are read in that node's own frame (the handed-in pool is never rebound or written): inner angles depend only on the chain of parent frames, which is what makes them rotation invariant",
         "R-NORMALISED: every request for angle symbols is for the helicity state (children[0] or an id normalised with is_opposite_helicity_state); from_transition swap; alignment sign",
         "R-CONVENTION: Wigner-D takes (-phi, theta, 0) of the symbols of children[0]",
         "R-GROUPKEY: the incoherent sum over outer spin projections is complete: the grouping key separates every (particle, projection) of the outer states",
@@ -247,6 +255,9 @@ def run(ctx: Check, tree: Tree) -> None:
     ctx.assumptions += ["qrules Topology API (get_edge_ids_*, edges) behaves as documented", "is_opposite_helicity_state is a total order on siblings (tuple comparison of attached final states)"]
     ctx.section(check_prov, ctx, tree, [ANGLES], min_stores=4)
     ctx.section(check_frame, ctx, tree)
+    from .c07 import check_pool
+
+    ctx.section(check_pool, ctx, tree)
     ctx.section(check_normalised, ctx, tree)
     ctx.section(check_convention, ctx, tree)
     from .c02 import check_group_key
